@@ -187,22 +187,22 @@ func init() {
 		}
 		return p.ctx.BV(uint64(strings.Count(s, string([]byte{byte(b.K)}))), 64)
 	})
-	reg("internal/bytealg.IndexString", func(p *Path, _ *frame, a []Value) Value {
-		s, ok1 := p.concreteString(a[0])
-		t, ok2 := p.concreteString(a[1])
-		if !ok1 || !ok2 {
-			panic(unsupported{"bytealg.IndexString on symbolic data"})
+	strIndex := func(p *Path, _ *frame, a []Value) Value {
+		h, n := p.toSymStr(a[0]), p.toSymStr(a[1])
+		c := p.ctx
+		r := c.BV(^uint64(0), 64)
+		for i := len(h) - len(n); i >= 0; i-- {
+			m := c.T
+			for j := range n {
+				m = c.And(m, c.Eq(h[i+j], n[j]))
+			}
+			r = c.Ite(m, c.BV(uint64(i), 64), r)
 		}
-		return p.ctx.BV(uint64(int64(strings.Index(s, t))), 64)
-	})
-	reg("internal/stringslite.Index", func(p *Path, _ *frame, a []Value) Value {
-		s, ok1 := p.concreteString(a[0])
-		t, ok2 := p.concreteString(a[1])
-		if !ok1 || !ok2 {
-			panic(unsupported{"strings.Index on symbolic data"})
-		}
-		return p.ctx.BV(uint64(int64(strings.Index(s, t))), 64)
-	})
+		return r
+	}
+	reg("internal/bytealg.IndexString", strIndex)
+	reg("internal/stringslite.Index", strIndex)
+	reg("strings.Index", strIndex)
 	reg("unsafe.String", func(p *Path, _ *frame, a []Value) Value {
 		panic(unsupported{"unsafe.String"})
 	})
